@@ -108,6 +108,7 @@ type wEng struct {
 	intTyped map[string]bool  // leaves whose static type is the platform int (≤ MaxInt by type)
 	upper    map[string]int64 // declared upper bounds of leaves (preconditions, see rules)
 	convs    map[*ssa.Convert]*convInfo
+	indMemo  map[*ssa.BasicBlock][]lin // inductionFacts per block (present while being computed: no circular use)
 }
 
 // convInfo records how one integer conversion was justified.
@@ -118,7 +119,7 @@ type convInfo struct {
 
 func newWEng(r *Run, fn *ssa.Function, post map[string]postSummary) *wEng {
 	return &wEng{r: r, fn: fn, nonneg: map[string]bool{}, phiN: map[*ssa.Phi]string{}, post: post, wmemo: map[ssa.Value]*win{},
-		intTyped: map[string]bool{}, upper: map[string]int64{}, convs: map[*ssa.Convert]*convInfo{}}
+		intTyped: map[string]bool{}, upper: map[string]int64{}, convs: map[*ssa.Convert]*convInfo{}, indMemo: map[*ssa.BasicBlock][]lin{}}
 }
 
 func isByteSlice(t types.Type) bool {
@@ -437,7 +438,173 @@ func (e *wEng) factsAt(b *ssa.BasicBlock) []lin {
 			}
 		}
 	}
+	for _, p := range e.fn.Blocks {
+		if len(p.Preds) >= 2 && (p == b || p.Dominates(b)) {
+			out = append(out, e.inductionFacts(p)...)
+		}
+	}
 	return out
+}
+
+// edgeCondFacts: what the branch at the end of block p tells about the edge p → s
+// (nothing when p does not end in a two-way branch or both ways lead to s).
+func (e *wEng) edgeCondFacts(p, s *ssa.BasicBlock) []lin {
+	if len(p.Instrs) == 0 || len(p.Succs) != 2 || p.Succs[0] == p.Succs[1] {
+		return nil
+	}
+	ifi, ok := p.Instrs[len(p.Instrs)-1].(*ssa.If)
+	if !ok {
+		return nil
+	}
+	switch s {
+	case p.Succs[0]:
+		return e.condFacts(ifi.Cond, true)
+	case p.Succs[1]:
+		return e.condFacts(ifi.Cond, false)
+	}
+	return nil
+}
+
+// edgeFacts: the linear forms known to be ≥ 0 whenever the edge p → s is taken.
+func (e *wEng) edgeFacts(p, s *ssa.BasicBlock) []lin {
+	return append(e.factsAt(p), e.edgeCondFacts(p, s)...)
+}
+
+// inductionFacts: facts about a loop counter that hold whenever the counter's block B is
+// entered because they hold on every edge into B (a loop invariant, proved by induction).
+//
+// A loop whose test is evaluated before the first iteration and again after each one
+// (go/ssa's lowering of `for i := range n`; any do-while shaped loop) has no single
+// branch edge that dominates its body: the body is entered from the guard `0 < n` with
+// i = 0 and from the latch `i+1 < n` with i := i+1.  For a counter i = φ(…, i+k, …) of B a
+// candidate g(i) is read off the branch of a back edge (a condition over the incoming value
+// i+k, rewritten over the new value of i); it is accepted when, for EVERY edge P → B with
+// incoming value x, g(x) follows from the facts of that edge (the branch at the end of P; for
+// edges that do not advance the counter also what dominates P).  The other operands of the
+// condition must be loop-invariant SSA values (defined in a block that strictly dominates B,
+// parameters, constants) so that the leaf names in g denote the same numbers on every edge
+// and in every iteration.  Then g(i) holds at every execution of B, hence (SSA: i is not
+// redefined before B is re-entered) at every block B dominates.
+func (e *wEng) inductionFacts(B *ssa.BasicBlock) []lin {
+	if fs, ok := e.indMemo[B]; ok {
+		return fs
+	}
+	e.indMemo[B] = nil
+	var out []lin
+	for _, bi := range B.Instrs {
+		ph, ok := bi.(*ssa.Phi)
+		if !ok {
+			break
+		}
+		if !isInduction(ph) || isRangePre(ph) || !isIntType(ph.Type()) {
+			continue
+		}
+		self := e.leaf(ph)
+		name := e.leafName(ph)
+		// incoming value per edge, as a linear form; which edges advance the counter
+		in := make([]lin, len(ph.Edges))
+		back := make([]bool, len(ph.Edges))
+		okShape := true
+		for j, ed := range ph.Edges {
+			in[j] = e.lin(ed)
+			switch c := in[j].t[name]; {
+			case c == 0:
+			case c == 1 && len(in[j].plus(self, -1).t) == 0:
+				back[j] = true
+			default:
+				okShape = false
+			}
+		}
+		if !okShape {
+			continue
+		}
+		subst := func(g lin, x lin) lin { // g with the counter replaced by x
+			c := g.t[name]
+			return g.plus(self, -c).plus(x, c)
+		}
+		seen := map[string]bool{}
+		for j := range ph.Edges {
+			if !back[j] {
+				continue
+			}
+			P := B.Preds[j]
+			if len(P.Instrs) == 0 {
+				continue
+			}
+			ifi, isIf := P.Instrs[len(P.Instrs)-1].(*ssa.If)
+			if !isIf || !invariantCond(ifi.Cond, ph, B) {
+				continue
+			}
+			k := in[j].plus(self, -1).c
+			for _, f := range e.edgeCondFacts(P, B) {
+				if f.t[name] == 0 {
+					continue
+				}
+				g := subst(f, self.addc(-k)) // f speaks of the old value i = i' − k
+				if seen[g.String()] {
+					continue
+				}
+				seen[g.String()] = true
+				okAll := true
+				for m := range ph.Edges {
+					Pm := B.Preds[m]
+					facts := e.edgeCondFacts(Pm, B)
+					if !back[m] {
+						facts = append(facts, e.factsAt(Pm)...)
+					}
+					if !e.entails(subst(g, in[m]), facts) {
+						okAll = false
+						break
+					}
+				}
+				if okAll {
+					out = append(out, g)
+				}
+			}
+		}
+	}
+	e.indMemo[B] = out
+	return out
+}
+
+// invariantCond: the condition compares integer expressions built from the counter ph,
+// constants and values that do not change while the loop around B runs.
+func invariantCond(c ssa.Value, ph *ssa.Phi, B *ssa.BasicBlock) bool {
+	var inv func(v ssa.Value, depth int) bool
+	inv = func(v ssa.Value, depth int) bool {
+		if v == ssa.Value(ph) {
+			return true
+		}
+		switch x := v.(type) {
+		case *ssa.Const, *ssa.Parameter:
+			return true
+		case *ssa.BinOp:
+			if depth < 6 && inv(x.X, depth+1) && inv(x.Y, depth+1) {
+				return true
+			}
+		case *ssa.Convert:
+			if depth < 6 && inv(x.X, depth+1) {
+				return true
+			}
+		case *ssa.ChangeType:
+			if depth < 6 && inv(x.X, depth+1) {
+				return true
+			}
+		}
+		if in, ok := v.(ssa.Instruction); ok && in.Block() != nil && in.Block() != B && in.Block().Dominates(B) {
+			return true
+		}
+		return false
+	}
+	switch x := c.(type) {
+	case *ssa.UnOp:
+		if x.Op == token.NOT {
+			return invariantCond(x.X, ph, B)
+		}
+	case *ssa.BinOp:
+		return inv(x.X, 0) && inv(x.Y, 0)
+	}
+	return false
 }
 
 func (e *wEng) condFacts(c ssa.Value, truth bool) []lin {
